@@ -59,6 +59,13 @@ ALPHABET = {
                            ("mv", "d1", ".restore-tmp", "d1", "a"), ("hardlink", "d1", "hl", "a")],
 }
 QUICK_NAMES = list(ALPHABET)
+# syncs that stop before the end ("a previous sync was incomplete"); used after one operation, never inside the general sequences
+INCOMPLETE = {
+    "!sync-B1": [("cmd", "sync", "-B", "1")],
+    "!sync-S1-B1": [("cmd", "sync", "-S", "1", "-B", "1")],
+    "!sync-killed": [("cmd", "sync", "--test-kill-after-sync")],
+}
+ALPHABET.update(INCOMPLETE)
 
 
 def ground_truth(L):
@@ -315,6 +322,11 @@ def run(ctx):
             for s in names:
                 for t in names:
                     seqs.append(((s,), (t,)))
+        if mode in ("alpha", "rehash-pending"):
+            # one operation, then a sync that does not complete, then (no further change) diff / sync / diff ...
+            for s in names:
+                for inc in INCOMPLETE:
+                    seqs.append(((s, inc),))
         jobs = [(cfg, None if mode in REBUILD else saved, s, order_opts(mode, opts), ctx.seed, mode) for s in seqs]
         done = 0
         for j, r in par.pmap(job, jobs, deadline=ctx.deadline, chunksize=2):
